@@ -138,8 +138,13 @@ pub trait Spec: Sized + Send + Sync + 'static {
 
 #[derive(Clone, Copy, Debug, PartialEq, Eq)]
 pub enum Kind {
+    /// bytes of stored strings / owned elements
     Payload,
-    Index,
+    /// one index entry per slice element / row cell, kept in a plain vector
+    Entries,
+    /// offset containers and compressible index containers (cost given by the documented rule, may be 0)
+    Offsets,
+    /// the column vector
     Structure,
 }
 #[derive(Clone, Debug, PartialEq, Eq)]
@@ -170,7 +175,7 @@ pub trait IdxModel<T> {
 }
 impl<T> IdxModel<T> for Vec<T> {
     fn slots(vals: &[MIdx], out: &mut Vec<Slot>) {
-        out.push(Slot { kind: Kind::Index, used: vals.len() * std::mem::size_of::<T>() });
+        out.push(Slot { kind: Kind::Entries, used: vals.len() * std::mem::size_of::<T>() });
     }
 }
 fn dense_values(vals: &[MIdx]) -> Vec<usize> {
@@ -183,8 +188,8 @@ fn dense_values(vals: &[MIdx]) -> Vec<usize> {
 }
 fn list_slots(seq: &[usize], out: &mut Vec<Slot>) {
     let first_big = seq.iter().position(|&x| x > u32::MAX as usize).unwrap_or(seq.len());
-    out.push(Slot { kind: Kind::Index, used: 4 * first_big });
-    out.push(Slot { kind: Kind::Index, used: 8 * (seq.len() - first_big) });
+    out.push(Slot { kind: Kind::Offsets, used: 4 * first_big });
+    out.push(Slot { kind: Kind::Offsets, used: 8 * (seq.len() - first_big) });
 }
 impl IdxModel<usize> for flatcontainer::impls::index::IndexList<Vec<u32>, Vec<u64>> {
     fn slots(vals: &[MIdx], out: &mut Vec<Slot>) {
@@ -200,7 +205,11 @@ impl IdxModel<usize> for flatcontainer::impls::index::IndexOptimized {
 }
 fn offsets_slots<O: IdxModel<usize>>(offs: &[usize], out: &mut Vec<Slot>) {
     let v: Vec<MIdx> = offs.iter().map(|o| MIdx::Dense(*o)).collect();
-    O::slots(&v, out)
+    let from = out.len();
+    O::slots(&v, out);
+    for s in &mut out[from..] {
+        s.kind = Kind::Offsets;
+    }
 }
 
 #[derive(Clone)]
@@ -843,7 +852,7 @@ where
             I::m_layout(c, out);
         }
         offsets_slots::<O>(&m.row_offs, out);
-        out.push(Slot { kind: Kind::Index, used: m.cells * std::mem::size_of::<<I::R as Region>::Index>() });
+        out.push(Slot { kind: Kind::Entries, used: m.cells * std::mem::size_of::<<I::R as Region>::Index>() });
     }
     fn name() -> String {
         format!("ColumnsRegion<{}, {}>", I::name(), short_type::<O>())
